@@ -486,4 +486,21 @@ end
 #print axioms C02_wrong_username_collision
 #print axioms C02_wrong_username_three_way
 
+
+/-! ### The headline clause on the real hash
+
+Run by the kernel on the real SHA-1 (record "A"/"A", salt 05…05, b = 3, a = 2): the client who types the password "B" is REFUSED, and so is
+the client who claims the name "B" with the right password; the right credentials are accepted.  (A test, labelled as a test: the
+theorems above are what holds for every input.) -/
+
+private def realLogin (un pw : NStr) : Out Bool := do
+  let ver ← SrpVerifier.fromUsernameAndPassword Crypto.real .num uA uA salt5
+  let p ← ver.intoProof .num (3 :: z31)
+  let cc ← SrpClientChallenge.new Crypto.real .num un pw gBig Gen.largeSafePrimeLE p.serverPublicKey p.salt (2 :: z31)
+  let r ← p.intoServer Crypto.real .num cc.clientPublicKey cc.clientProof []
+  pure (match r with | .ok _ => true | .error _ => false)
+
+example : realLogin uA uA = .ok true ∧ realLogin uA ⟨0x42 :: z15, 1⟩ = .ok false ∧ realLogin ⟨0x42 :: z15, 1⟩ uA = .ok false := by
+  decide +kernel
+
 end WowSrp
